@@ -9,4 +9,5 @@ MODULES = {
     'PosArith': 'position',
     'ValidatorChain': 'validator_chain',
     'Reserve': 'reserve',
+    'MatcherCap': 'matcher',
 }
